@@ -95,6 +95,8 @@ def check_c01_c05(prop, tier, seed):
         check_c05_mutated_current_value(b, rng, tier)
         check_c05_integer_array_setitem(b, rng, tier)
     check_index_array_ownership(b, rng, prop)
+    if not inplace:
+        check_mask_ownership(b, rng, prop)
     return b
 
 
@@ -145,6 +147,41 @@ def check_index_array_ownership(b, rng, prop):
             if not ok:
                 b.fail(f"{prop}.bounded.index_object_aliased", desc, f"x.grad = {None if x0.grad is None else x0.grad.tolist()}, expected {exp_x.tolist()}" + ("" if exp_y is None else f"; y.grad = {None if yv.grad is None else yv.grad.tolist()}, expected {exp_y.tolist()}"))
             b.case(desc)
+
+
+def check_mask_ownership(b, rng, prop):
+    """where= masks and the condition of mg.where belong to the recorded computation as well."""
+    w = np.array([1.0, 10.0, 100.0])
+    for kind in ("ufunc-where-binary", "ufunc-where-unary", "mg.where", "sum-where" if False else "ufunc-where-inplace"):
+        x = mg.tensor(rng.uniform(1, 2, size=(3,)))
+        y = mg.tensor(rng.uniform(1, 2, size=(3,)))
+        m = np.array([True, False, True])
+        desc = dict(statement=kind, then="the caller overwrites the mask / condition array before backward()")
+        b.count("mask object owned by the recorded operation")
+        try:
+            if kind == "ufunc-where-binary":
+                z = mg.multiply(x, y, where=m, out=np.zeros(3))
+                ex, ey = w * y.data * m, w * x.data * m
+            elif kind == "ufunc-where-unary":
+                z = mg.exp(x, where=m, out=np.zeros(3))
+                ex, ey = w * np.exp(x.data) * m, None
+            elif kind == "mg.where":
+                z = mg.where(m, x, y)
+                ex, ey = w * m, w * ~m
+            else:
+                t = y * 1.0
+                mg.multiply(t, x, where=m, out=t)
+                z = t
+                ex, ey = w * y.data * m, np.where(m, w * x.data, w)
+            m[...] = [False, True, False]
+            (z * w).sum().backward()
+        except Exception as e:
+            b.fail(f"{prop}.bounded.mask_object_aliased", desc, f"{type(e).__name__}: {e}")
+            continue
+        ok = x.grad is not None and np.allclose(x.grad, ex) and (ey is None or (y.grad is not None and np.allclose(y.grad, ey)))
+        if not ok:
+            b.fail(f"{prop}.bounded.mask_object_aliased", desc, f"x.grad = {None if x.grad is None else x.grad.tolist()}, expected {np.asarray(ex).tolist()}" + ("" if ey is None else f"; y.grad = {None if y.grad is None else y.grad.tolist()}, expected {np.asarray(ey).tolist()}"))
+        b.case(desc)
 
 
 def check_c05_integer_array_setitem(b, rng, tier):
